@@ -136,8 +136,9 @@ def validate_request(request, json_config):
     if not version:
         try:
             message = "Request {0} invalid.".format(request)
-        except RuntimeError:
-            # Request too deeply nested to be printed (recursion limit)
+        except Exception:
+            # Request which can't be printed: too deeply nested (recursion
+            # limit) or holding a loaded object whose representation fails
             message = "Request invalid."
 
         fault = Fault(-32600, message, rpcid=rpcid, config=json_config)
